@@ -37,6 +37,8 @@ pub fn current_worker_ordinal() -> ThreadId {
 #[cfg(feature = "verif")]
 pub(crate) fn verif_set_worker_ordinal(ordinal: ThreadId) {
     WORKER_ORDINAL.with(|x| x.store(ordinal, Ordering::SeqCst));
+}
+
 /// Verification hook: the current worker ordinal, or `None` if this thread is not a GC worker.
 #[cfg(feature = "verif")]
 pub(crate) fn verif_current_worker_ordinal() -> Option<ThreadId> {
